@@ -1,10 +1,23 @@
 #!/bin/bash
-# Run once after a fresh restore (offline): regenerate Gen/ from /repo, build the Lean library.
+# Run once after a fresh restore (offline): regenerate Gen/ from /repo, build the Lean modules of every
+# registered check (MANIFEST.json), smoke-test the import of the implementation under test.
 set -e
 cd "$(dirname "$(readlink -f "$0")")"
 export PYTHONDONTWRITEBYTECODE=1
 /venv/bin/python -W ignore -m vcheck.translate
+TARGETS=$(/venv/bin/python -W ignore - <<'PY'
+import json, importlib
+ids = [c["property_id"] for c in json.load(open("MANIFEST.json"))["checks"]]
+mods = []
+for i in ids:
+    p = importlib.import_module(f"vcheck.props.{i.lower()}").PROP
+    for m in list(p.build_targets) + list(p.lean_modules):
+        if m not in mods:
+            mods.append(m)
+print(" ".join(mods))
+PY
+)
 cd lean
-lake build 2>&1 | tail -5
+lake build $TARGETS 2>&1 | tail -5
 cd ..
 /venv/bin/python -W ignore -c "from vcheck import impl; v = impl.load(); print('implementation under test:', v.__file__)"
